@@ -91,7 +91,12 @@ func (i ImportNames) TypeName(t types.Type) string {
 		}
 		return typ.Obj().Name()
 	default:
-		return t.String()
+		// Composite types (slices, maps, channels, function types...): qualify the named types
+		// inside them the way the setup file does instead of with their full package path.
+		return types.TypeString(t, func(pkg *types.Package) string {
+			name, _ := i.LookupName(pkg.Path())
+			return name
+		})
 	}
 }
 
